@@ -432,6 +432,7 @@ func init() {
 			{Name: "twowatch-highest", Module: "TwoWatch", Cfg: "TwoWatch_intended.cfg", Tier: "quick", Workers: 4, XmxMB: 2000, Timeout: 5 * time.Minute},
 			{Name: "twowatch-highest", Module: "TwoWatch", Cfg: "TwoWatch_intended4.cfg", Tier: "thorough", Workers: 8, XmxMB: 4000, Timeout: 10 * time.Minute},
 			{Name: "twowatch-lowest", Module: "TwoWatch", Cfg: "TwoWatch_ascoded.cfg", Workers: 1, XmxMB: 2000, Timeout: 5 * time.Minute, ExpectViolation: "Complete"},
+			{Name: "enumerate", Module: "Enumerate", Cfg: "Enumerate.cfg", Workers: 8, XmxMB: 12000, Timeout: 20 * time.Minute},
 		},
 		TraceModule: "APITrace",
 		Cases: func(env *core.Env) []core.Case {
